@@ -68,9 +68,14 @@ static void set_table(char **names, int n)
 
 static void bad(const char *what, int got, int expected, const char *key, size_t len)
 {
-    if (n_bad++ < 50)
-        printf("BAD %s table=%d%s got=%d expected=%d n=%d key=%.*s\n", what, cur_table,
-               in_exhaustive ? "(subset)" : "", got, expected, tctx.num_globals, (int)len, key);
+    int i;
+    if (n_bad++ >= 50)
+        return;
+    printf("BAD %s table=%d got=%d expected=%d key=%.*s", what, cur_table, got, expected,
+           (int)len, key);
+    for (i = 0; in_exhaustive && i < tctx.num_globals; i++)     /* the subset that is the table */
+        printf("%s%s", i ? "," : " subset=", tctx.globals[i].name);
+    printf("\n");
 }
 
 static int is_ident(const char *s, size_t n)
